@@ -329,7 +329,7 @@ class FnTx:
             tgt = s.targets[0]
             if isinstance(tgt, ast.Name):
                 a, k = self.atom(s.value, out)
-                if k not in ('val', 'result'):
+                if k not in ('val', 'result', 'callback'):
                     self.bad(s, f'`{_src(s)}` binds a {k} to a local')
                 ln = self.lean_name(tgt.id)
                 self.names[tgt.id], self.kinds[tgt.id] = ln, k
